@@ -226,6 +226,8 @@ def run(chk: common.Check):
         return "\n".join((l[:21] + "L" + l[22:]) if l[:6] == "HETATM" else l for l in t.splitlines()) + "\n"
     pairs.append(("4DFR complex A (ligand chain L)", lig_L(partA), {}, "4DFR complex B (ligand chain L)", lig_L(partB), {}))
 
+    # two parts with alternate locations: alternate-location labels (hence conformations) are global to the file
+    pairs.append(("conf-alt-AB", S("conf-alt-AB.pdb"), {" ": "A", "A": "A"}, "conf-alt-BC", S("conf-alt-BC.pdb"), {" ": "B", "A": "B"}))
     # a far part whose own iterative solution needs several sweeps, next to the sweep-limit cluster
     pairs.append(("4DFR complex A", partA, {"A": "A"}, "carboxylate triangle", tri, {"Q": "Q"}))
     gaps = [25.5, 60.0, 1200.0] + ([26.0, 300.0, 5000.0] if chk.thorough else [])
@@ -268,7 +270,7 @@ def run(chk: common.Check):
                     db = compare_part(rb, rc, chains_b)
                 for part, d in ((na, da), (nb, db)):
                     if d:
-                        found.append(("far-part-changes-results" + (":shared-ligand-chain" if ("4DFR" in na and "4DFR" in nb) else (":sweep-limit-cluster" if "triangle" in nb else "")),
+                        found.append(("far-part-changes-results" + (":alternate-locations-are-file-global" if "conf-alt" in na else ":shared-ligand-chain" if ("4DFR" in na and "4DFR" in nb) else (":sweep-limit-cluster" if "triangle" in nb else "")),
                                       f"{what}: {len(d)} results of {part} differ from processing it alone, e.g. {d[0][1:]}",
                                       dict(rep, differences=[list(map(str, x)) for x in d[:6]])))
                         break
